@@ -1310,7 +1310,7 @@ fn subsets_upto4(pool: &[rawp::RollupId]) -> Vec<Vec<rawp::RollupId>> {
 
 fn generate(rng: &mut Rng, ex: &mut Exec, trace: &mut Trace) {
     let env_u64 = |k: &str| std::env::var(k).ok().and_then(|v| v.parse::<u64>().ok());
-    let sessions = env_u64("VERIF_SESSIONS").unwrap_or(if common::is_thorough() { 120 } else { 36 });
+    let sessions = env_u64("VERIF_SESSIONS").unwrap_or(if common::is_thorough() { 80 } else { 36 });
     // (corpus lines were generated with VERIF_HEIGHT_BASE=2 and use heights below 10)
     let base = env_u64("VERIF_HEIGHT_BASE").unwrap_or(10) as u32;
     for n in 0..sessions {
